@@ -39,3 +39,12 @@ func init() {
 func init() {
 	props["C13"] = []Stream{{"sweep", genSweep}}
 }
+
+func init() {
+	props["LOOP"] = []Stream{{"loop", genLoop}}
+}
+
+func init() {
+	props["C07"] = []Stream{{"wire-varint", genWireVarint}, {"wire-valid", genWireValid}, {"wire-reencode", genWireReencode}, {"wire-unknown-dbi", genWireUnknownDBI}}
+	props["C08"] = []Stream{{"wire-varint", genWireVarint}, {"wire-malformed", genWireMalformed}, {"wire-unknown-dbi", genWireUnknownDBI}}
+}
